@@ -106,6 +106,56 @@ func c07Worker(seed uint64, thorough bool, part string) int {
 			fmt.Fprintf(w, "PROBLEM %s: %s\n", desc, res)
 		}
 	}
+	if part == "big" {
+		// inputs of several megabytes: the depth of a search must not grow with the haystack (a recursive engine dies with a
+		// stack overflow that no recover() can catch: the worker's death, with the input in flight, is the report)
+		cases := []struct {
+			p, unit string
+			n       int
+		}{{`^[a-z]+`, "a", 6 << 20}, {`([a-z])+`, "a", 3 << 20}, {`(\w{2,8})+`, "ab", 1 << 20}, {`(?:a|b)*c`, "ab", 2 << 20}, {`[a-z]+[0-9]`, "a", 4 << 20}, {`^.*x`, "a", 6 << 20}}
+		if thorough {
+			cases = append(cases, struct {
+				p, unit string
+				n       int
+			}{`^[a-z]+`, "a", 24 << 20}, struct {
+				p, unit string
+				n       int
+			}{`(a*)*b`, "a", 4 << 20}, struct {
+				p, unit string
+				n       int
+			}{`((a|b)+)$`, "ab", 3 << 20})
+		}
+		for _, c := range cases {
+			re, err := coregex.Compile(c.p)
+			if err != nil {
+				continue
+			}
+			h := bytes.Repeat([]byte(c.unit), c.n)
+			try("big", []byte(c.p), []byte(fmt.Sprint(len(h))))
+			res := guard(240*time.Second, func() string {
+				loc := re.FindIndex(h)
+				if loc != nil && (loc[0] < 0 || loc[1] > len(h) || loc[0] > loc[1]) {
+					return fmt.Sprintf("FindIndex out of bounds: %v", loc)
+				}
+				m := re.Match(h)
+				if m != (loc != nil) {
+					return fmt.Sprintf("Match=%v but FindIndex=%v", m, loc)
+				}
+				cnt := re.Count(h, 3)
+				if (cnt > 0) != m {
+					return fmt.Sprintf("Count=%d but Match=%v", cnt, m)
+				}
+				return ""
+			})
+			n++
+			if res != "" {
+				fmt.Fprintf(w, "PROBLEM big input %q on %q x %d: %s\n", c.p, c.unit, c.n, res)
+			}
+			w.Flush()
+		}
+		fmt.Fprintf(w, "DONE %d\n", n)
+		return 0
+	}
 	if part == "compile" {
 		// arbitrary strings as patterns
 		np := 3000
@@ -215,7 +265,7 @@ func checkC07(r *Report, known []Finding) {
 		"(130 thorough), and on large inputs crossing internal thresholds; on every result: spans in bounds and ordered, groups inside the match, enumerations ordered and non-overlapping, " +
 		"returned slices alias the input at the reported offsets, haystack unchanged; non-trivial = the pattern compiles and is searched; distinct by input"
 	self, _ := os.Executable()
-	for _, part := range []string{"compile", "guard"} {
+	for _, part := range []string{"compile", "guard", "big"} {
 		cmd := exec.Command(self, "c07worker", fmt.Sprint(r.Seed), r.Tier, part)
 		cmd.Env = os.Environ()
 		var out bytes.Buffer
